@@ -27,6 +27,15 @@ type c16Route struct {
 
 var c16RouteRe = regexp.MustCompile(`\.(?:HandleFunc|Handle)\(\s*"([^"]+)"`)
 
+// c16DefaultIdxRe finds a string literal assigned to something called *index* (`indexName =
+// "x"`, `req.IndexName = "x"`, `const defaultIndex = "x"`).
+var c16DefaultIdxRe = regexp.MustCompile(`\b\w*[iI]ndex\w*\s*:?=\s*"([A-Za-z0-9_.\-]+)"`)
+
+// c16DefaultIdx: source file -> literal index names its handlers fall back to.
+var c16DefaultIdx = map[string][]string{}
+var c16DefaultAll []string
+var c16ListedWords int
+
 func c16RepoDir() string {
 	d := os.Getenv("VERIF_REPO")
 	if d == "" {
@@ -70,7 +79,29 @@ func c16ParseRoutes() ([]c16Route, []string, error) {
 			}
 			routes = append(routes, r)
 		}
+		// index names a handler falls back to when the request does not name one
+		// (indexName = "mcp_memory"): they are namespaces like any other
+		for _, m := range c16DefaultIdxRe.FindAllStringSubmatch(src, -1) {
+			dup := false
+			for _, n := range c16DefaultIdx[base] {
+				dup = dup || n == m[1]
+			}
+			if !dup {
+				c16DefaultIdx[base] = append(c16DefaultIdx[base], m[1])
+				c16DefaultAll = append(c16DefaultAll, m[1])
+			}
+		}
 		if base == "middleware.go" {
+			// the registered patterns the middleware lists by name (readOnlyPostRoutes): their last
+			// segments are the words a resource name must not be able to imitate
+			for _, m := range regexp.MustCompile(`"(?:GET|POST|PUT|DELETE|PATCH) (/[^"{}]+)"\s*:`).FindAllStringSubmatch(src, -1) {
+				p := strings.Trim(m[1], "/")
+				wordSet[p[strings.LastIndex(p, "/")+1:]] = true
+				if strings.Count(p, "/") == 1 {
+					wordSet[p] = true // "rag/retrieve", "ui/explore"
+				}
+				c16ListedWords++
+			}
 			for _, m := range regexp.MustCompile(`HasSuffix\(path,\s*"([^"]+)"\)`).FindAllStringSubmatch(src, -1) {
 				c16SuffixWords = append(c16SuffixWords, m[1])
 			}
@@ -160,6 +191,7 @@ type c16Gen struct {
 	words              []string
 	routes             []c16Route
 	curOwn, curForeign string
+	curOwn2            string // another index the token covers (== curOwn if there is none)
 }
 
 // ordered JSON object that may contain duplicate keys
@@ -310,7 +342,11 @@ func (g *c16Gen) template(path string) (fields []c16KV, idxField string) {
 		fields = []c16KV{{K: "role", V: vkit.Pick(g.r, []string{"admin", "write", "read"})}, {K: "namespaces", V: []string{"*"}}, {K: "description", V: "esc"}}
 		idxField = ""
 	case path == "/compile" || path == "/compile/validate":
-		fields = []c16KV{{K: "name", V: "art1"}, {K: "template", V: "entity_profile"}, {K: "sources", V: map[string]any{"type": "all", "entity": map[string]any{"type": "doc", "id": g.id()}}}}
+		// "entity_card" / "topic_overview" are built-in templates that accept any entity type (the
+		// compile succeeds and stores an artifact); "entity_profile" is not a template (the compile
+		// reads the index and then fails)
+		fields = []c16KV{{K: "name", V: vkit.Pick(g.r, []string{"art1", "art1", "art2"})}, {K: "template", V: vkit.Pick(g.r, []string{"entity_card", "entity_card", "topic_overview", "entity_profile"})},
+			{K: "sources", V: map[string]any{"type": vkit.Pick(g.r, []string{"all", "all", "graph_query", "semantic_search"}), "entity": map[string]any{"type": "doc", "id": vkit.Pick(g.r, []string{"n0", "n0", g.id()})}}}}
 	case strings.HasPrefix(path, "/system/") || strings.HasPrefix(path, "/auth/"):
 		idxField = ""
 	default:
@@ -320,7 +356,47 @@ func (g *c16Gen) template(path string) (fields []c16KV, idxField string) {
 }
 
 var c16IdxVariants = []string{"own", "foreign", "missing", "wrongtype", "dupcase-own-first", "dupcase-foreign-first",
-	"dup-own-first", "dup-foreign-first", "nested", "unicode-key", "two-docs", "array", "decoy-own", "empty"}
+	"dup-own-first", "dup-foreign-first", "nested", "unicode-key", "two-docs", "array", "decoy-own", "empty",
+	"sibling-wrongtype", "fresh"}
+
+// c16SiblingFields are the body fields requestNamespaces (middleware.go) reads next to index_name.
+var c16SiblingFields = []string{"index_name", "source_index", "target_index", "pipeline_name"}
+
+// wrongTyped returns a JSON value that is not a string (null is left out: encoding/json accepts
+// null for a string field).
+func (g *c16Gen) wrongTyped() any {
+	return vkit.Pick(g.r, []any{0, 7, true, []string{}, map[string]any{}, []any{"x"}, 1.5})
+}
+
+// siblingWrong appends one index-carrying field that the route's handler does NOT read, with a
+// non-string value: a decoder that knows the field rejects the body, a handler that ignores
+// unknown fields accepts it.
+func (g *c16Gen) siblingWrong(fields []c16KV, used ...string) []c16KV {
+	var cand []string
+	for _, s := range c16SiblingFields {
+		skip := false
+		for _, u := range used {
+			skip = skip || u == s
+		}
+		if !skip {
+			cand = append(cand, s)
+		}
+	}
+	kv := c16KV{K: vkit.Pick(g.r, cand), V: g.wrongTyped()}
+	if g.r.Chance(0.5) {
+		return append(fields, kv)
+	}
+	return append([]c16KV{kv}, fields...)
+}
+
+// freshName: an index that does not exist and that a restricted token does not cover.
+func (g *c16Gen) freshName(own, foreign string) string {
+	c := []string{own + "2", "fresh_" + vkit.Pick(g.r, g.words), "new-" + own}
+	if foreign != "" {
+		c = append(c, foreign+"x")
+	}
+	return strings.NewReplacer("/", "-", "::", "-").Replace(vkit.Pick(g.r, c))
+}
 
 // buildBody places the index reference. own/foreign are index names.
 func (g *c16Gen) buildBody(path, variant, own, foreign string) []byte {
@@ -337,9 +413,17 @@ func (g *c16Gen) buildBody(path, variant, own, foreign string) []byte {
 		if g.r.Chance(0.3) {
 			src, dst = own, tgt
 		}
+		if variant == "fresh" { // copy out of an index of the token into an index that does not exist yet
+			src, dst = own, g.freshName(own, foreign)
+		}
+		if variant == "own" { // the benign shape: both ends inside the token
+			src, dst = own, g.curOwn2
+		}
 		fields = append(fields, c16KV{K: "source_index", V: src}, c16KV{K: "target_index", V: dst})
 		switch variant {
 		case "missing", "wrongtype", "empty", "array":
+		case "sibling-wrongtype":
+			fields = g.siblingWrong(fields, "source_index", "target_index")
 		case "foreign":
 			fields = append([]c16KV{{K: "index_name", V: tgt}}, fields...)
 		default:
@@ -360,6 +444,8 @@ func (g *c16Gen) buildBody(path, variant, own, foreign string) []byte {
 		fields = append(fields, c16KV{K: "pipeline_name", V: pipe})
 		switch variant {
 		case "missing", "wrongtype", "empty", "array":
+		case "sibling-wrongtype":
+			fields = g.siblingWrong(fields, "pipeline_name")
 		default:
 			fields = append([]c16KV{{K: "index_name", V: own}}, fields...)
 		}
@@ -371,6 +457,10 @@ func (g *c16Gen) buildBody(path, variant, own, foreign string) []byte {
 			fields = append([]c16KV{{K: "index_name", V: own}}, fields...)
 		case "foreign":
 			fields = append([]c16KV{{K: "index_name", V: tgt}}, fields...)
+		case "sibling-wrongtype":
+			fields = g.siblingWrong(append([]c16KV{{K: "index_name", V: tgt}}, fields...), "index_name")
+		case "fresh":
+			fields = append([]c16KV{{K: "index_name", V: g.freshName(own, foreign)}}, fields...)
 		case "empty":
 			return nil
 		}
@@ -381,6 +471,10 @@ func (g *c16Gen) buildBody(path, variant, own, foreign string) []byte {
 		fields = append([]c16KV{{K: "index_name", V: own}}, fields...)
 	case "foreign":
 		fields = append([]c16KV{{K: "index_name", V: tgt}}, fields...)
+	case "sibling-wrongtype":
+		fields = g.siblingWrong(append([]c16KV{{K: "index_name", V: tgt}}, fields...), "index_name")
+	case "fresh":
+		fields = append([]c16KV{{K: "index_name", V: g.freshName(own, foreign)}}, fields...)
 	case "missing":
 	case "wrongtype":
 		fields = append([]c16KV{{K: "index_name", V: vkit.Pick(g.r, []any{7, nil, []string{tgt}, map[string]any{"index_name": tgt}, true})}}, fields...)
@@ -439,6 +533,8 @@ func (g *c16Gen) paramValues(kind, own, foreign string) []string {
 			out = append(out, t.JTI)
 		}
 		out = append(out, "no-such-jti", "x"+w(), "a/"+w(), "..")
+	case "artifact": // the fixture compiles artifact "art1" (entity doc/n0) in every index
+		out = []string{"art1", "art1", "art1", "art1", "art2", "art1' OR type='doc", "x" + w(), "a/" + w(), ".."}
 	default:
 		out = []string{"n0", "n1", "n2", "u1", "ghost", "art1", "pipeA", "pipeB", "x" + w(), w(), "a/" + w(), "..", own, foreign + "x", "_sys_auth::ecdsa_private_key", "A%2F" + w()}
 	}
@@ -471,7 +567,12 @@ type c16Directive struct {
 	Name    string
 	Param   string // "own" | "foreign": value of an index-like path parameter
 	Variant string // body index variant
-	Query   string // "own" | "foreign": adds ?index_name=&index= with that index
+	Query   string // "own" | "foreign": adds ?index_name=&index= with that index; "own-name": only ?index_name=own; "foreign-then-own": both keys twice, foreign first
+	Body    bool   // only meaningful for requests that carry a body (skipped for GET / HEAD routes)
+	Global  bool   // also sent with the unrestricted read / write tokens
+	// LastParam, if set, is the value of the route's last {param} (whatever its kind)
+	LastParam string
+	NoAB      bool // not repeated for the two-index tokens (the shape does not depend on the list length)
 }
 
 var c16Directed = []c16Directive{
@@ -481,6 +582,18 @@ var c16Directed = []c16Directive{
 	{Name: "path=own body=own query=foreign", Param: "own", Variant: "own", Query: "foreign"},
 	{Name: "path=own body=own (benign)", Param: "own", Variant: "own"},
 	{Name: "path=foreign body=foreign", Param: "foreign", Variant: "foreign"},
+	// the URL names an index of the token, the body names another one
+	{NoAB: true, Name: "query=own body=foreign", Param: "own", Variant: "foreign", Query: "own-name", Body: true},
+	// ... and the body is one that a strict decoder of the index fields rejects
+	{NoAB: true, Name: "query=own body=foreign+wrongly typed sibling", Param: "own", Variant: "sibling-wrongtype", Query: "own-name", Body: true},
+	// the URL names an index of the token in a parameter the handler may not read, nothing
+	// else does: a handler with a default index works on that default
+	{NoAB: true, Name: "query=index_name=own only", Param: "own", Variant: "missing", Query: "own-name"},
+	// repeated query parameters in the hostile order: a handler reads the first value
+	// (Query().Get), a checker that looks at the last one sees an index of the token
+	{NoAB: true, Name: "query=foreign,own (first value foreign)", Param: "own", Variant: "own", Query: "foreign-then-own"},
+	// an index that does not exist yet and is outside the token
+	{NoAB: true, Name: "query=own body=fresh index", Param: "own", Variant: "fresh", Query: "own-name", Body: true, Global: true},
 }
 
 // instantiate builds one request for a route (dir == nil: everything random).
@@ -503,7 +616,12 @@ func (g *c16Gen) instantiate(rt c16Route, tok *c16Token, dir *c16Directive) *c16
 	} else if tok != nil && tok.global() {
 		foreign = ""
 	}
-	g.curOwn, g.curForeign = own, foreign
+	g.curOwn, g.curForeign, g.curOwn2 = own, foreign, own
+	for _, n := range allowed {
+		if n != own {
+			g.curOwn2 = n
+		}
+	}
 	q := &c16Req{Route: rt, Params: map[string]string{}, Own: own, Foreign: foreign}
 	for _, ix := range f.idx {
 		q.fixIdx = append(q.fixIdx, ix.Name)
@@ -529,8 +647,19 @@ func (g *c16Gen) instantiate(rt c16Route, tok *c16Token, dir *c16Directive) *c16
 				kind = "key"
 			case i >= 2 && segs[i-1] == "keys" && segs[i-2] == "auth":
 				kind = "jti"
+			case i >= 1 && segs[i-1] == "artifact":
+				kind = "artifact"
 			}
 			v := vkit.Pick(g.r, g.paramValues(kind, own, foreign))
+			if dir != nil && dir.LastParam != "" && i == len(segs)-1 {
+				v = dir.LastParam
+				if kind == "index" {
+					v = own + strings.TrimPrefix(v, "x")
+				}
+				q.Params[strings.Trim(s, "{}.")] = v
+				outSegs = append(outSegs, url.PathEscape(v))
+				continue
+			}
 			if dir != nil && kind == "index" {
 				v = own
 				if dir.Param == "foreign" && foreign != "" {
@@ -567,10 +696,16 @@ func (g *c16Gen) instantiate(rt c16Route, tok *c16Token, dir *c16Directive) *c16
 			if dir.Query == "foreign" {
 				v = tgt
 			}
-			qs = append(qs, "index_name="+url.QueryEscape(v), "index="+url.QueryEscape(v), "entity_type=doc", "entity_id=n0")
+			if dir.Query == "own-name" {
+				qs = append(qs, "index_name="+url.QueryEscape(own), "entity_type=doc", "entity_id=n0")
+			} else if dir.Query == "foreign-then-own" {
+				qs = append(qs, "index_name="+url.QueryEscape(tgt), "index="+url.QueryEscape(tgt), "index_name="+url.QueryEscape(own), "index="+url.QueryEscape(own), "entity_type=doc", "entity_id=n0")
+			} else {
+				qs = append(qs, "index_name="+url.QueryEscape(v), "index="+url.QueryEscape(v), "entity_type=doc", "entity_id=n0")
+			}
 		}
 	} else if q.Method == "GET" || q.Method == "HEAD" || g.r.Chance(0.2) {
-		switch g.r.Intn(6) {
+		switch g.r.Intn(11) {
 		case 0:
 			qs = append(qs, "index_name="+url.QueryEscape(tgt))
 		case 1:
@@ -579,6 +714,38 @@ func (g *c16Gen) instantiate(rt c16Route, tok *c16Token, dir *c16Directive) *c16
 			qs = append(qs, "index_name="+url.QueryEscape(own), "index_name="+url.QueryEscape(tgt))
 		case 3:
 			qs = append(qs, "status=unresolved", "limit=100")
+		case 4: // the hostile order for a "first value" reader
+			qs = append(qs, "index_name="+url.QueryEscape(tgt), "index_name="+url.QueryEscape(own))
+		case 5: // the key one kind of handler reads first, the other key with an index of the token
+			a, b := "index", "index_name"
+			if g.r.Chance(0.5) {
+				a, b = b, a
+			}
+			qs = append(qs, a+"="+url.QueryEscape(tgt), b+"="+url.QueryEscape(own), "entity_type=doc", "entity_id=n0")
+		case 6: // an index of the token alone: the body (or a handler default) decides
+			qs = append(qs, vkit.Pick(g.r, []string{"index_name", "index"})+"="+url.QueryEscape(own), "entity_type=doc", "entity_id=n0")
+		case 7: // an empty first value: Query().Get() sees "", a reader of all values sees own
+			k := vkit.Pick(g.r, []string{"index_name", "index"})
+			qs = append(qs, k+"=", k+"="+url.QueryEscape(own), "entity_type=doc", "entity_id=n0")
+		}
+	}
+	if strings.HasPrefix(rt.Path, "/artifact") && dir == nil {
+		// what the artifact routes need to get past their parameter checks
+		has := strings.Contains(strings.Join(qs, "&"), "entity_type=")
+		if !has && g.r.Chance(0.8) {
+			qs = append(qs, "entity_type=doc", "entity_id=n0")
+		}
+		switch {
+		case strings.HasSuffix(rt.Path, "/diff"):
+			qs = append(qs, "v1=1", "v2="+vkit.Pick(g.r, []string{"1", "2"}))
+		case strings.HasSuffix(rt.Path, "/at"):
+			qs = append(qs, "time=99999999999")
+		}
+	} else if strings.HasPrefix(rt.Path, "/artifact") {
+		if strings.HasSuffix(rt.Path, "/diff") {
+			qs = append(qs, "v1=1", "v2=1")
+		} else if strings.HasSuffix(rt.Path, "/at") {
+			qs = append(qs, "time=99999999999")
 		}
 	}
 	if strings.HasPrefix(rt.Path, "/debug/pprof") {
